@@ -11,9 +11,9 @@ cp /repo/Cargo.lock "$WT/" 2>/dev/null
 export CARGO_NET_OFFLINE=true CARGO_TARGET_DIR="$WT/target"
 cd "$WT"
 cp "$SRC/seed_demo.rs" tests/seed_demo.rs
-cargo test --offline --test seed_demo >"$WT/demo_clean.log" 2>&1; D0=$?
-git apply "$SRC/patch.diff" >"$WT/apply.log" 2>&1; AP=$?
-cargo test --offline --test seed_demo >"$WT/demo_mut.log" 2>&1; D1=$?
+cargo test --offline $DEMO_FLAGS --test seed_demo >"$WT/demo_clean.log" 2>&1; D0=$?
+P="$SRC/patch.diff"; [ -f "$SRC/patch_rebased.diff" ] && P="$SRC/patch_rebased.diff"; git apply "$P" >"$WT/apply.log" 2>&1; AP=$?
+cargo test --offline $DEMO_FLAGS --test seed_demo >"$WT/demo_mut.log" 2>&1; D1=$?
 rm -f tests/seed_demo.rs
 cargo nextest run --workspace --no-fail-fast --tool-config-file pb:/w/lib/nextest.toml --profile pb --test-threads 4 --offline >"$WT/suite.log" 2>&1; S=$?
 SUM=$(grep -E "Summary|tests run" "$WT/suite.log" | tail -1 | sed 's/"/ /g')
